@@ -34,7 +34,7 @@ import (
 
 type c13Site struct {
 	file, fn, kind, expr, guard string
-	need                    int // index/slice: the length the operand must have at least (0 = not a constant need)
+	need                        int // index/slice: the length the operand must have at least (0 = not a constant need)
 }
 
 func c13Src(n ast.Node) string {
